@@ -67,7 +67,7 @@ theorem compileFn_gfrag_run (f2 : Nat) (fd : FnDef) (cs : CState) (bsp : Span) (
     (oe : Option Expr)
     (hbody : fd.body = .mk bsp bty stmts oe) (hparams : ∀ p ∈ fd.params, p.isSingleton = false)
     (hann : fd.hasAnnotation = false) (hloops : cs.loops = [])
-    (hs : Frag.okGSs false true stmts = true) (he : ∀ e, oe = some e → Frag.okGE e = true)
+    (hs : Frag.okFSs fr false true stmts = true) (he : ∀ e, oe = some e → Frag.okGE e = true)
     (hd : Frag.cdSs stmts ≤ f2) (hde : ∀ e, oe = some e → Frag.cdE e ≤ f2)
     (hws : Frag.wsGSs cs.currModule fd.name (φOf (fnBase cs fd)) [] stmts (partsOf cs fd stmts oe).envB = true)
     (hwe : ∀ e, oe = some e → Frag.wsGE (partsOf cs fd stmts oe).envS.scopes (φOf (fnBase cs fd)) e = true) :
@@ -236,7 +236,7 @@ theorem compileFn_gfrag (f2 : Nat) (fd : FnDef) (cs : CState) (bsp : Span) (bty 
     (oe : Option Expr)
     (hbody : fd.body = .mk bsp bty stmts oe) (hparams : ∀ p ∈ fd.params, p.isSingleton = false)
     (hann : fd.hasAnnotation = false) (hloops : cs.loops = [])
-    (hs : Frag.okGSs false true stmts = true) (he : ∀ e, oe = some e → Frag.okGE e = true)
+    (hs : Frag.okFSs fr false true stmts = true) (he : ∀ e, oe = some e → Frag.okGE e = true)
     (hd : Frag.cdSs stmts ≤ f2) (hde : ∀ e, oe = some e → Frag.cdE e ≤ f2)
     (hws : Frag.wsGSs cs.currModule fd.name (φOf (fnBase cs fd)) [] stmts (partsOf cs fd stmts oe).envB = true)
     (hwe : ∀ e, oe = some e → Frag.wsGE (partsOf cs fd stmts oe).envS.scopes (φOf (fnBase cs fd)) e = true) :
